@@ -13,6 +13,12 @@ Edits (indices = pre-order index in the INITIAL tree):
   ["reorder", p, [c...]]    p.children = [those children in that order]
   ["failmove", i, p]        node.parent = p where p is node or lies below it (or, Node: p already has a child of
                             that name): refused by bigtree, the caller catches the error; nothing changes
+  ["hookmove", i, p, pt]    node.parent = p, a VALID move, but the user's pre-/post-assign hook (pt) first reads the
+                            derived properties (depth, max_depth, root, ancestors, path_name, siblings, diameter of the
+                            node and of p - hooks may read) and then raises: rolled back, nothing changes
+  ["hookkids", p, [c..], pt] p.children = [those nodes] (a permutation of p's children plus possibly a node taken from
+                            elsewhere), hook reads and raises: rolled back, nothing changes
+(the two hook edits need objects of the classes returned by hooked_classes())
 """
 from __future__ import annotations
 import random
@@ -83,6 +89,8 @@ def apply_abstract(nodes, e):
     elif k == "reorder":
         p = nodes[e[1]]
         p.kids = [nodes[c] for c in e[2]]
+    elif k in ("hookmove", "hookkids"):
+        pass
     elif k == "failmove":
         pass
     else:
@@ -155,6 +163,23 @@ def random_edits(rng: random.Random, spec, count, alphabet, kinds=("rename", "sw
                 perm = [c.idx for c in p.kids]
                 rng.shuffle(perm)
                 e = ["reorder", p.idx, perm]
+        elif k == "hookmove" and len(nodes) > 2 and inner:
+            n = rng.choice(inner)
+            cands = [p for p in nodes if p is not n.parent and not _in_subtree(n, p)
+                     and all(s.name != n.name for s in p.kids)]
+            if cands:
+                e = ["hookmove", n.idx, rng.choice(cands).idx, rng.choice(["pre", "post", "post"])]
+        elif k == "hookkids":
+            ps = [p for p in nodes if len(p.kids) >= 1]
+            if ps:
+                p = rng.choice(ps)
+                perm = [c.idx for c in p.kids]
+                rng.shuffle(perm)
+                extra = [x for x in nodes if x.parent is not None and x.parent is not p and not _in_subtree(x, p) and x is not p
+                         and all(s.name != x.name for s in p.kids)]
+                if extra and rng.random() < 0.5:
+                    perm.insert(rng.randrange(len(perm) + 1), rng.choice(extra).idx)
+                e = ["hookkids", p.idx, perm, rng.choice(["pre", "post", "post"])]
         elif k == "failmove" and inner:
             n = rng.choice(inner)
             cands = [p for p in nodes if _in_subtree(n, p)]
@@ -167,9 +192,75 @@ def random_edits(rng: random.Random, spec, count, alphabet, kinds=("rename", "sw
     return edits
 
 
+ARM = {"point": None, "op": None}
+_HCLS = {}
+
+
+def _peek_and_maybe_raise(point, node, others):
+    if ARM["point"] != point:
+        return
+    import core
+    for x in [node] + [o for o in others if o is not None and hasattr(o, "depth")]:
+        for f in (lambda: x.depth, lambda: x.max_depth, lambda: x.root, lambda: list(x.ancestors), lambda: x.siblings,
+                  lambda: x.diameter, lambda: list(x.descendants), lambda: x.path_name, lambda: x.node_path):
+            try:
+                f()
+            except Exception:  # noqa: BLE001 - BaseNode has no path_name, ...
+                pass
+    raise core.hook_exc(ARM["op"], "user hook " + point)
+
+
+def hooked_classes():
+    """(HNode, HBase): Node / BaseNode subclasses whose four documented hooks, when armed, read derived properties
+    and then raise (the hook_exc class is a function of the edit)"""
+    if not _HCLS:
+        from bigtree import Node, BaseNode
+
+        class HNode(Node):
+            def _Node__pre_assign_parent(self, new_parent):
+                _peek_and_maybe_raise("pre", self, [new_parent])
+
+            def _Node__post_assign_parent(self, new_parent):
+                _peek_and_maybe_raise("post", self, [new_parent])
+
+            def _Node__pre_assign_children(self, new_children):
+                _peek_and_maybe_raise("pre", self, list(new_children))
+
+            def _Node__post_assign_children(self, new_children):
+                _peek_and_maybe_raise("post", self, list(new_children))
+
+        class HBase(BaseNode):
+            def _BaseNode__pre_assign_parent(self, new_parent):
+                _peek_and_maybe_raise("pre", self, [new_parent])
+
+            def _BaseNode__post_assign_parent(self, new_parent):
+                _peek_and_maybe_raise("post", self, [new_parent])
+
+            def _BaseNode__pre_assign_children(self, new_children):
+                _peek_and_maybe_raise("pre", self, list(new_children))
+
+            def _BaseNode__post_assign_children(self, new_children):
+                _peek_and_maybe_raise("post", self, list(new_children))
+
+        _HCLS["n"], _HCLS["b"] = HNode, HBase
+    return _HCLS["n"], _HCLS["b"]
+
+
 def apply_real(objs, e):
     """the same edit on real bigtree objects (objs[i] = object of initial index i)"""
     k = e[0]
+    if k in ("hookmove", "hookkids"):
+        ARM["point"], ARM["op"] = e[3], e
+        try:
+            if k == "hookmove":
+                objs[e[1]].parent = objs[e[2]]
+            else:
+                objs[e[1]].children = [objs[c] for c in e[2]]
+        except Exception:  # noqa: BLE001 - the roll-back is the point; the caller carries on with the tree
+            pass
+        finally:
+            ARM["point"] = ARM["op"] = None
+        return
     if k == "rename":
         objs[e[1]].name = e[2]
     elif k == "swapnames":
